@@ -4,7 +4,13 @@ reported as a violation (it is a machinery error, exit 2)."""
 import os, traceback
 
 
+class LibraryRaised(Exception):
+    """Raised by the harness around a direct call of a compiled (numba) pyins function, whose own frames do not appear on a traceback."""
+
+
 def entered_pyins(exc):
+    if isinstance(exc, LibraryRaised):
+        return True
     repo = os.path.abspath(os.environ.get("VERIF_REPO", "/repo"))
     tb = exc.__traceback__
     for fr in traceback.extract_tb(tb):
